@@ -87,7 +87,7 @@ def catalogue(ele, DE, CODES):
             continue
         vals += ['A' * n, '1' * n, 'a' * n, ('1' * (n - 1) + ' ') if n > 1 else ' ', ('A' * (n - 1) + ' ') if n > 1 else ' ', '9' * (n - 1) + '.' if n > 1 else '.',
                  '-' + '1' * n, '1' * max(n - 1, 1) + '.5']
-    vals += ['-1', '1.5', '-', '.', '1.', '-.5', '12 ', 'AB\x07', 'A\tB', '~', '^', '`', '<>', 'é', 'A*B', '*', "!\"&'()*+,-./:;?=", 'A B', 'a*b', '#$%@', '\u0130', '\u212a', '20240229', '20230229', '18000101', '17991231', '20240101-20240102',
+    vals += ['-1', '1.5', '-', '.', '1.', '-.5', '12 ', 'AB\x07', 'A\tB', '~', '^', '`', '<>', 'é', 'A*B', '*', "!\"&'()*+,-./:;?=", 'A B', 'a*b', '#$%@', '\u0130', '\u212a', '\uff11\uff12', '\u0661\u0662\u0663', '-\u0967', '12\u00b2', '1\u0663', '20240229', '20230229', '18000101', '17991231', '20240101-20240102',
              '20240101-20241301', '20240101-20240102-20240103', '240229', '230229', '202412251230', '202412252460', '202412251260', '202402292460', '202413251230', '20241225123', '1259', '2460', '125960', '12595999', '125959999', '1', '12', '123', '0' * mn, ' ' * mn, ' A', 'A  ']
     vals += list(ele.codes[:60]) + ['ZQ9', 'zz']
     if ele.codes:
